@@ -9,6 +9,18 @@ AX_R = ('axioms: the three real-number axioms of the Coq standard library (Class
         'sig_forall_dec, FunctionalExtensionality.functional_extensionality_dep) where Reals are used; ')
 
 CHECKS = {
+    'C16': dict(
+        technique='Coq proof (induction over operation sequences, lia) about a hand-written executable model of the JobPool: an interleaving state machine and the collection functions over every arrival order; vm_compute correspondence replaying the arrival orders observed on real worker processes',
+        text='Theorems in coq/Props/C16.v: under EVERY interleaving of submissions, worker starts and finishes and result pops each task is '
+             'accounted for exactly once and number_jobs equals the outstanding count; when nothing is outstanding each non-status task '
+             'has been delivered exactly as often as submitted and nothing else; for EVERY order in which results can arrive, all_results '
+             'terminates and returns precisely the outstanding non-status results (exceptions included), and result() never blocks while '
+             'something is outstanding. The unit test runs a few tasks on one schedule.',
+        note='closed under the global context (no axioms). The model is hand-written and tied by correspondence only: the arrival order seen '
+             'by the parent in each real run is replayed through the model. Liveness assumes tasks terminate and a fair OS scheduler; '
+             'process creation, pipes and pickling are trusted; single-life mode is out of scope (documented as able to block). '
+             'A theorem cannot exhibit a real deadlock: blocking is detected on the runs by a time limit.',
+        design='6 C16'),
     'C15': dict(
         technique='Coq proof (list induction, lia; Reals field/nra) about a hand-written executable model of the joint multi-event sum with the station-intersection rule and of combine_mu over abstract arithmetic; vm_compute / bit-exact PrimFloat correspondence against the real task (with coded stubs) and combine_mu',
         text='Theorems in coq/Props/C15.v for every number of events, station lists and minimum: without relative data the joint log-probability '
